@@ -567,6 +567,11 @@ func (env *Env) evalCall(x *ECall) SV {
 			env.fail("fresh() outside a postcondition")
 		}
 		return mathBool(mkLe(base.alloc, v.T[0]))
+	case "allocated":
+		// the reference was allocated before the current program point
+		argn(1)
+		v := env.eval(x.Args[0])
+		return mathBool(mkLt(v.T[len(v.T)-1], env.st.alloc))
 	case "sameSlice":
 		argn(2)
 		a, b := env.eval(x.Args[0]), env.eval(x.Args[1])
